@@ -88,7 +88,15 @@ static char *make_jwk(const vh_key_t *k, int priv, int pad, meta_t *m, int extra
 	switch (k->kind) {
 	case VH_K_OCT:
 		tb_adds(&t, "\"oct\"");
-		add_b64(&t, "k", k->oct, k->octlen, 0);
+		if (k->octlen % 3 && vh_below(&rng, 4) == 0) {
+			/* the same bytes spelled with '=' padding, sometimes with further characters after it */
+			char *e = vh_b64u_enc_dup(k->oct, k->octlen);
+			tb_adds(&t, ",\"k\":\""); tb_adds(&t, e); tb_adds(&t, k->octlen % 3 == 1 ? "==" : "=");
+			if (vh_below(&rng, 2)) tb_adds(&t, "QUFBQUFBQUFBQUFBQUFBQUFB");
+			tb_adds(&t, "\"");
+			free(e);
+		} else
+			add_b64(&t, "k", k->oct, k->octlen, 0);
 		if (extras & 1) tb_adds(&t, ",\"n\":\"AQAB\",\"crv\":\"P-256\"");
 		break;
 	case VH_K_RSA: case VH_K_RSAPSS:
